@@ -27,7 +27,13 @@ from props import dykstra_common as dc
 
 MODULE = "DfolsVerif.Properties.C15"
 BUILD_TARGETS = ["DfolsVerif.Driver.DykstraDrv"]
+def pre_build(ctx):
+    import gen_kernels
+    ctx.cov["translated_dykstra"] = gen_kernels.regenerate_dykstra(ctx)
+
+
 THEOREMS = [
+    "Dfols.C15.gen_dykstra_body", "Dfols.C15.gen_pball", "Dfols.C15.gen_dykstra_skeleton",
     "Dfols.C15.C15_feasible",
     "Dfols.C15.C15_feasible_infDist",
     "Dfols.C15.C15_stopped_of_sweeps_lt",
@@ -44,6 +50,7 @@ THEOREMS = [
 ]
 LEVEL = "proof"
 TRUSTED_EXTRA = [
+    "AST-to-Lean translator harness/gen_kernels.py (translate_dykstra): the inner-loop body and pball as Ops terms, the loop skeleton and pbox as canonical text",
     "C15_feasible is an exact-arithmetic statement (real normed space); the float gap (O(eps*|x|) per sub-step, far below sqrt(tol)) is watched by the search with the bound sqrt(p*tol)(1+1e-9)+1e-15",
     "projectors are opaque maps in the theorems (only P_i v in C_i is used); pbox/pball themselves are tied to util.py by the closed-language correspondence",
     "NOT proved: 'within 1e-3 of the true projection' (C15_near_optimal, stated in a comment): not a consequence of the stopping rule; observed by the search against a reference run",
